@@ -8,8 +8,13 @@
 //   muh ...                                 as mu; the offset is that of a chunk header of a valid archive
 //   sc <id> <spec> <valuetext> <jtab>       same through session_interface / cache_interface store_data/fetch_data
 //   scl <id> <spec> <hex> <jtab>            the bytes stored as session value / cache frame, then fetch_data
+//   rd <id> <spec> <valuetext> <dirtytext> <jtab>   save the object, load it into an object that holds <dirtytext> (state must be replaced, not merged)
+//   sq <id> <spec> <valuetext> ... <jtab>   several objects saved one after another into ONE archive, then loaded one after another
 // <jtab> is only read by the model driver.
+// Every case runs under a watchdog (CPU-time and wall-clock interval timers): a case that exceeds its budget is answered with
+// the line "<op> HANG <which>" and the process exits with status 75 (the supervisor in checks/C19.py restarts it on the next case).
 #include <string>
+#include <utility>
 #include <vector>
 #include <list>
 #include <map>
@@ -26,6 +31,10 @@
 #include <string.h>
 #include <stdlib.h>
 #include <stdio.h>
+#include <unistd.h>
+#include <signal.h>
+#include <sys/time.h>
+#include <sys/resource.h>
 #include <booster/shared_ptr.h>
 #include <booster/intrusive_ptr.h>
 #include <booster/hold_ptr.h>
@@ -54,9 +63,21 @@
 #include "hexio.h"
 using namespace hx;
 
+// The type table can be compiled in several translation units side by side (compile time is dominated by the template
+// instantiations per type): -DC19_PART=0 = main(), the session cases and the shared globals; -DC19_PART=1..3 = a slice of the
+// type table each; without -DC19_PART everything is in this one translation unit.
+#ifndef C19_PART
+#define C19_PART -1
+#endif
+#if C19_PART<=0
+#define C19_GLOBAL
+#else
+#define C19_GLOBAL extern
+#endif
+
 // ---------------------------------------------------------------- json wrapper with a log
 struct jw { cppcms::json::value v; };
-static std::vector<std::pair<std::string,std::string> > jlog;
+C19_GLOBAL std::vector<std::pair<std::string,std::string> > jlog;
 static std::string json_text(cppcms::json::value const &v)
 {
 	std::ostringstream ss; v.save(ss,cppcms::json::compact); return ss.str();
@@ -319,6 +340,30 @@ template<> struct IO<rec1> {
 		return a.name==b.name && a.n==b.n && IO<M>::eq(a.m,b.m) && IO<P2>::eq(a.p,b.p) && IO<L3>::eq(a.l,b.l) && IO<jw>::eq(a.j,b.j); }
 };
 
+// empty POD vectors / strings / containers in every non-final position: a, s, b, l, m, vv are all followed by further members
+//   == P v1 P s P v4 P Ls P Mp4v2 P Lv8 p4
+struct rec4 : public cppcms::serializable {
+	std::vector<char> a; std::string s; std::vector<int> b; std::list<std::string> l; std::map<int,std::vector<short> > m;
+	std::vector<std::vector<double> > vv; int tail;
+	rec4():tail(0){}
+	void serialize(cppcms::archive &ar){ ar & a & s & b & l & m & vv & tail; }
+};
+template<> struct IO<rec4> {
+	typedef std::vector<char> A; typedef std::vector<int> B; typedef std::list<std::string> L; typedef std::map<int,std::vector<short> > M;
+	typedef std::vector<std::vector<double> > VV;
+	static std::string spec(){ return "P"+IO<A>::spec()+"PsP"+IO<B>::spec()+"P"+IO<L>::spec()+"P"+IO<M>::spec()+"P"+IO<VV>::spec()+"p4"; }
+	static void print(rec4 const &v,std::string &o){
+		o+="("; IO<A>::print(v.a,o); o+=",("; IO<std::string>::print(v.s,o); o+=",("; IO<B>::print(v.b,o); o+=",("; IO<L>::print(v.l,o); o+=",(";
+		IO<M>::print(v.m,o); o+=",("; IO<VV>::print(v.vv,o); o+=","; IO<int>::print(v.tail,o); o+="))))))"; }
+	static bool build(char const *&p,rec4 &v){
+		return eat(p,'(') && IO<A>::build(p,v.a) && eat(p,',') && eat(p,'(') && IO<std::string>::build(p,v.s) && eat(p,',') && eat(p,'(')
+			&& IO<B>::build(p,v.b) && eat(p,',') && eat(p,'(') && IO<L>::build(p,v.l) && eat(p,',') && eat(p,'(') && IO<M>::build(p,v.m)
+			&& eat(p,',') && eat(p,'(') && IO<VV>::build(p,v.vv) && eat(p,',') && IO<int>::build(p,v.tail)
+			&& eat(p,')') && eat(p,')') && eat(p,')') && eat(p,')') && eat(p,')') && eat(p,')'); }
+	static bool eq(rec4 const &a,rec4 const &b){
+		return IO<A>::eq(a.a,b.a) && a.s==b.s && IO<B>::eq(a.b,b.b) && IO<L>::eq(a.l,b.l) && IO<M>::eq(a.m,b.m) && IO<VV>::eq(a.vv,b.vv) && a.tail==b.tail; }
+};
+
 // ---------------------------------------------------------------- running a case
 static std::string status_of(std::exception const &e)
 {
@@ -384,11 +429,73 @@ template<class T> static std::string do_rt(std::string const &text)
 			a3.str(bytes); T third=T(); a3 >> third; if(!IO<T>::eq(orig,third) || !a3.eof()) st="0:str";
 			cppcms::archive a4; a4=a2; a4.mode(cppcms::archive::load_from_archive); T fourth=T(); a4 & fourth;
 			if(!IO<T>::eq(orig,fourth) || !a4.eof()) st="0:assign";
+			// a4 stands at the end now: a copy carries the read position; mode() rewinds whatever the position was
+			cppcms::archive a5(a4);
+			if(a5.ptr_!=a4.ptr_ || a5.eof()!=a4.eof()) st="0:copy-position";
+			a4.mode(cppcms::archive::load_from_archive); T fifth=T(); a4 >> fifth;
+			if(!IO<T>::eq(orig,fifth) || !a4.eof()) st="0:mode-rewind";
+			cppcms::archive a6; a6=a5;
+			if(a6.ptr_!=a5.ptr_ || a6.mode()!=a5.mode()) st="0:assign-position";
+			// move construction / move assignment carry buffer, position and mode as well
+			size_t pos5=a5.ptr_; cppcms::archive::mode_type m5=a5.mode();
+			cppcms::archive a7(std::move(a6));
+			if(a7.ptr_!=pos5 || a7.mode()!=m5 || a7.str()!=bytes) st="0:move-ctor";
+			cppcms::archive a8; a8=std::move(a7);
+			if(a8.ptr_!=pos5 || a8.mode()!=m5 || a8.str()!=bytes) st="0:move-assign";
+			a8.reset(); T sixth=T(); a8 >> sixth;
+			if(!IO<T>::eq(orig,sixth) || !a8.eof()) st="0:moved-archive";
 		} catch(...) { st="threw:reuse"; }
 		jlog.resize(jl,std::make_pair(std::string(),std::string()));
 		r+=" eqd="+st;
 	}
 	return r;
+}
+
+// rd: the target of the load already holds OTHER data (non-null pointers where the saved object has null ones, full containers where it
+// has empty ones ...): everything must be replaced
+template<class T> static std::string do_rd(std::string const &text,std::string const &dtext)
+{
+	T orig=T(); char const *p=text.c_str();
+	if(!IO<T>::build(p,orig) || *p) return "BAD-VALUE";
+	T dirty=T(); char const *q=dtext.c_str();
+	if(!IO<T>::build(q,dirty) || *q) return "BAD-VALUE";
+	cppcms::archive a; a << orig;
+	std::string bytes=a.str();
+	std::string r="A="+hex(bytes)+" ";
+	std::string l1=load_into(bytes,dirty);                    // operator>>
+	r+=l1;
+	if(l1.compare(0,2,"ok")==0) {
+		r+=std::string(" eq=")+(IO<T>::eq(orig,dirty)?"1":"0");
+		T dirty2=T(); char const *q2=dtext.c_str(); IO<T>::build(q2,dirty2);
+		cppcms::archive a3; a3.str(bytes);
+		std::string st="1";
+		size_t jl=jlog.size();
+		try { a3 & dirty2; if(!IO<T>::eq(orig,dirty2) || !a3.eof()) st="0"; } catch(...) { st="threw"; }   // operator& in load mode
+		jlog.resize(jl,std::make_pair(std::string(),std::string()));
+		r+=" eqd="+st;
+	}
+	return r;
+}
+
+// sq: one archive, several objects: save appends, load continues at the read position the previous load left
+template<class T> static bool do_sv(cppcms::archive &a,std::string const &text)
+{
+	T obj=T(); char const *p=text.c_str();
+	if(!IO<T>::build(p,obj) || *p) return false;
+	a << obj;
+	return true;
+}
+template<class T> static std::string do_lv(cppcms::archive &a,std::string const &text)
+{
+	T orig=T(); char const *p=text.c_str();
+	IO<T>::build(p,orig);
+	T obj=T();
+	try { a >> obj; }
+	catch(std::exception const &e) { return status_of(e); }
+	catch(...) { return "exc:unknown"; }
+	std::string o="ok ptr="+itos(a.ptr_)+" eof="+(a.eof()?"1":"0")+" eq="+(IO<T>::eq(orig,obj)?"1":"0")+" v=";
+	IO<T>::print(obj,o);
+	return o;
 }
 
 #ifdef C19_WITH_SERVICE
@@ -398,8 +505,8 @@ struct null_adapter : public cppcms::session_interface_cookie_adapter {
 	virtual std::string get_session_cookie(std::string const &){ return cppcms::util::urldecode(value); }
 	virtual std::set<std::string> get_cookie_names(){ return std::set<std::string>(); }
 };
-static cppcms::service *the_service;
-static cppcms::session_pool *the_pool;
+C19_GLOBAL cppcms::service *the_service;
+C19_GLOBAL cppcms::session_pool *the_pool;
 static void make_service()
 {
 	if(the_service) return;
@@ -591,12 +698,54 @@ static std::string do_sd(std::string const &){ return "NO-SERVICE"; }
 static std::string do_ss(std::string const &){ return "NO-SERVICE"; }
 #endif
 
-struct entry { std::string spec; std::string (*ld)(std::string const &); std::string (*rt)(std::string const &); std::string (*sc)(std::string const &); std::string (*scl)(std::string const &); };
-static std::vector<entry> table;
-template<class T> static void reg(){ entry e; e.spec=IO<T>::spec(); e.ld=&do_ld<T>; e.rt=&do_rt<T>; e.sc=&do_sc<T>; e.scl=&do_scl<T>; table.push_back(e); }
+struct entry { std::string spec; std::string (*ld)(std::string const &); std::string (*rt)(std::string const &); std::string (*sc)(std::string const &); std::string (*scl)(std::string const &);
+	bool (*sv)(cppcms::archive &,std::string const &); std::string (*lv)(cppcms::archive &,std::string const &);
+	std::string (*rd)(std::string const &,std::string const &); };
+C19_GLOBAL std::vector<entry> table;
+template<class T> static void reg(){ entry e; e.spec=IO<T>::spec(); e.ld=&do_ld<T>; e.rt=&do_rt<T>; e.sc=&do_sc<T>; e.scl=&do_scl<T>; e.sv=&do_sv<T>; e.lv=&do_lv<T>; e.rd=&do_rd<T>; table.push_back(e); }
+
+// ---------------------------------------------------------------- per-case watchdog
+// No case may run unbounded: the loops of archive_traits are driven by archive contents (element counts), and a loader that
+// stops consuming bytes turns a count of 2^31 (or 2^63) into a loop that only the count bounds.  Budget per case: CPU time of the
+// process (not wall: the machine is shared) and a generous wall-clock limit for a case that blocks.
+static char wd_line[64]; static size_t wd_len;
+static void wd_fire(int sig)
+{
+	char buf[96]; size_t n=0;
+	for(size_t i=0;i<wd_len;i++) buf[n++]=wd_line[i];
+	char const *t=(sig==SIGPROF) ? " HANG cpu-budget-exceeded\n" : " HANG wall-budget-exceeded\n";
+	while(*t) buf[n++]=*t++;
+	ssize_t r=write(1,buf,n); (void)r;
+	_exit(75);
+}
+static long wd_cpu_ms=1500,wd_wall_ms=30000;
+static void wd_init()
+{
+	if(char const *e=getenv("C19_CASE_CPU_MS")) wd_cpu_ms=atol(e);
+	if(char const *e=getenv("C19_CASE_WALL_MS")) wd_wall_ms=atol(e);
+	struct sigaction sa; memset(&sa,0,sizeof(sa)); sa.sa_handler=wd_fire; sigemptyset(&sa.sa_mask);
+	sigaction(SIGPROF,&sa,0); sigaction(SIGALRM,&sa,0);
+#if !defined(__SANITIZE_ADDRESS__)
+	// address space cap (the sanitized builds use ASAN_OPTIONS=hard_rss_limit_mb instead)
+	struct rlimit rl; rl.rlim_cur=rl.rlim_max=(rlim_t)6<<30; setrlimit(RLIMIT_AS,&rl);
+#endif
+}
+static void wd_arm(std::string const &op)
+{
+	wd_len=op.size()<32?op.size():32; memcpy(wd_line,op.data(),wd_len);
+	struct itimerval tv; memset(&tv,0,sizeof(tv));
+	tv.it_value.tv_sec=wd_cpu_ms/1000; tv.it_value.tv_usec=(wd_cpu_ms%1000)*1000; setitimer(ITIMER_PROF,&tv,0);
+	tv.it_value.tv_sec=wd_wall_ms/1000; tv.it_value.tv_usec=(wd_wall_ms%1000)*1000; setitimer(ITIMER_REAL,&tv,0);
+}
+static void wd_disarm()
+{
+	struct itimerval tv; memset(&tv,0,sizeof(tv)); setitimer(ITIMER_PROF,&tv,0); setitimer(ITIMER_REAL,&tv,0);
+}
 
 typedef std::string str;
-static void fill_table()
+void fill_part1(); void fill_part2(); void fill_part3();
+#if C19_PART==-1 || C19_PART==1
+void fill_part1()
 {
 	reg<int>();                                                              // 0  p4
 	reg<char>();                                                             // 1  p1
@@ -616,6 +765,11 @@ static void fill_table()
 	reg<booster::shared_ptr<str> >();                                        // 15 Os
 	reg<std::vector<booster::shared_ptr<std::vector<str> > > >();            // 16 LOLs
 	reg<std::vector<std::vector<str> > >();                                  // 17 LLs
+}
+#endif
+#if C19_PART==-1 || C19_PART==2
+void fill_part2()
+{
 	reg<std::pair<char,unsigned long long> >();                              // 18 Pp1p8
 	reg<std::set<std::pair<int,str> > >();                                   // 19 SPp4s
 	reg<jw>();                                                               // 20 J
@@ -629,6 +783,11 @@ static void fill_table()
 	reg<std::vector<std::map<short,booster::shared_ptr<str> > > >();         // 28 LMp2Os
 	reg<std::list<std::vector<float> > >();                                  // 29 Lv4
 	reg<booster::hold_ptr<str> >();                                          // 30 Os
+}
+#endif
+#if C19_PART==-1 || C19_PART==3
+void fill_part3()
+{
 	reg<std::unique_ptr<std::vector<int> > >();                              // 31 Ov4
 	reg<booster::clone_ptr<cl_str> >();                                      // 32 Os
 	reg<std::vector<booster::copy_ptr<std::pair<short,str> > > >();          // 33 LOPp2s
@@ -639,21 +798,75 @@ static void fill_table()
 	reg<wchar_t>();                                                          // 38 p4
 	reg<std::vector<long double> >();                                        // 39 v16
 	reg<std::map<int,std::multiset<str> > >();                               // 40 Mp4Bs
+	reg<std::pair<std::vector<int>,str> >();                                 // 41 Pv4s
+	reg<std::vector<std::vector<int> > >();                                  // 42 Lv4
+	reg<std::pair<str,int> >();                                              // 43 Psp4
+	reg<std::vector<std::pair<std::vector<char>,std::vector<double> > > >(); // 44 LPv1v8
+	reg<std::map<int,std::vector<char> > >();                                // 45 Mp4v1
+	reg<std::pair<booster::shared_ptr<std::vector<short> >,str> >();         // 46 POv2s
+	reg<std::pair<std::set<int>,std::pair<std::list<str>,int> > >();         // 47 PSp4PLsp4
+	reg<rec4>();                                                             // 48 (serializable: session/cache)
+	reg<std::vector<std::vector<std::vector<short> > > >();                  // 49 LLv2
+	reg<std::map<std::vector<short>,str> >();                                // 50 Mv2s
+	reg<std::list<std::pair<str,std::vector<unsigned char> > > >();          // 51 LPsv1
+}
+#endif
+#if C19_PART<=0
+static void fill_table()
+{
+	// the order is the type id
+	fill_part1(); fill_part2(); fill_part3();
 }
 
 int main()
 {
 	fill_table();
+	wd_init();
 	std::string line;
 	while(std::getline(std::cin,line)) {
 		std::vector<std::string> v=split(line);
 		std::string out;
 		jlog.clear();
-		if(v.size()==3 && v[0]=="sd") out="sd "+do_sd(unhex(v[1]));
+		wd_arm(v.empty()?std::string("?"):v[0]);
+		if(v.size()==2 && v[0]=="spin") { volatile unsigned long long x=0; for(;;) x=x+1; }   // self-test of the watchdog
+		if(v.size()>=5 && v[0]=="sq" && v.size()%3==2) {
+			cppcms::archive a; bool ok=true; size_t n=(v.size()-2)/3;
+			for(size_t i=0;i<n && ok;i++) {
+				size_t id=strtoul(v[1+3*i].c_str(),0,10);
+				if(id>=table.size() || table[id].spec!=v[2+3*i] || !table[id].sv(a,v[3+3*i])) ok=false;
+			}
+			if(!ok) out="sq BAD-VALUE";
+			else {
+				std::string bytes=a.str();
+				out="sq A="+hex(bytes);
+				cppcms::archive b; b.str(bytes);
+				for(size_t i=0;i<n;i++) {
+					size_t id=strtoul(v[1+3*i].c_str(),0,10);
+					std::string r;
+					if(i%2==1) {
+						// every second object is read from a COPY of the archive, which is then assigned back:
+						// copy construction and assignment carry the read position
+						cppcms::archive c(b);
+						r=table[id].lv(c,v[3+3*i]);
+						b=c;
+					}
+					else r=table[id].lv(b,v[3+3*i]);
+					out+=" | "+r;
+					if(r.compare(0,2,"ok")!=0) break;
+				}
+				out+=" | "+jlog_text();
+			}
+		}
+		else if(v.size()==3 && v[0]=="sd") out="sd "+do_sd(unhex(v[1]));
 		else if(v.size()==3 && v[0]=="ss") out="ss "+do_ss(v[1]);
 		else if(v.size()==1 && v[0]=="types") {
 			out="types";
 			for(size_t i=0;i<table.size();i++) out+=" "+itos(i)+"="+table[i].spec;
+		}
+		else if(v.size()==6 && v[0]=="rd") {
+			size_t id=strtoul(v[1].c_str(),0,10);
+			if(id>=table.size() || table[id].spec!=v[2]) out="rd BAD-SPEC";
+			else { out="rd "+table[id].rd(v[3],v[4]); out+=" "+jlog_text(); }
 		}
 		else if(v.size()>=4 && (v[0]=="ld" || v[0]=="mu" || v[0]=="tr" || v[0]=="rt" || v[0]=="sc" || v[0]=="scl" || v[0]=="muh")) {
 			size_t id=strtoul(v[1].c_str(),0,10);
@@ -680,7 +893,9 @@ int main()
 			else out="BAD-CASE";
 		}
 		else out="BAD-CASE";
-		std::cout<<out<<"\n";
+		wd_disarm();
+		std::cout<<out<<"\n"<<std::flush;      // one write per line: after a crash or a HANG exit the supervisor knows exactly which case it was
 	}
 	return 0;
 }
+#endif
